@@ -232,6 +232,8 @@ impl Property for C11 {
         let mut rd: Api<()> = Api::Ok(());
         let mut steps_d = 0u64;
         loop {
+            let pre_d = snap(&d);
+            let was_finished = pre_d.finished;
             match step(&mut d) {
                 Api::Ok(true) => steps_d += 1,
                 Api::Ok(false) => {
@@ -239,6 +241,14 @@ impl Property for C11 {
                     break;
                 }
                 Api::Err(e) => {
+                    // a step refused because of the instruction limit changes nothing — not even the finished flag
+                    if e.contains("limit") && !was_finished {
+                        let post_d = snap(&d);
+                        if post_d != pre_d {
+                            fail(&mut out, "limit|refused-step-changed-state", format!("the step refused at the instruction limit changed state: {}", pre_d.diff(&post_d)));
+                            return out;
+                        }
+                    }
                     rd = Api::Err(e);
                     break;
                 }
@@ -283,6 +293,24 @@ impl Property for C11 {
                 if !matches!(r, Api::Err(_)) || s2 != a_final {
                     fail(&mut out, "limit|step-after-limit", format!("after the limit of {} a further step answered {} and state changed: {}", n, r.short(), a_final.diff(&s2)));
                     return out;
+                }
+                // raising the limit afterwards resumes the run as if the higher limit had been set from the start
+                if cause != "hard-limit" {
+                    a.set_max_instructions(HARD_LIMIT);
+                    let r2 = execute(&mut a);
+                    let resumed = snap(&a);
+                    prog::take_events();
+                    let agrees = match (&r2, cause) {
+                        (Api::Ok(_), "error") => false,
+                        (Api::Ok(_), _) => resumed == b_final,
+                        (Api::Err(_), "error") => resumed.executed == b_final.executed && resumed.gpr == b_final.gpr,
+                        _ => false,
+                    };
+                    out = out.class("limit:raised-and-resumed");
+                    if !agrees && c.stop.is_none() {
+                        fail(&mut out, "limit|resume-after-raising-the-limit", format!("limit {} reached, limit raised, execute(): {} — the unlimited reference run ended by {} ; {}", n, r2.short(), cause, b_final.diff(&resumed)));
+                        return out;
+                    }
                 }
             } else if cause != "error" && cause != "hard-limit" {
                 // the program finishes within the limit: same as the unlimited reference run
@@ -382,7 +410,7 @@ impl Property for C11 {
         "cases: slot-grid programs of 1–30 instructions (register ALU/mov/inc/dec/cmp/test, Jcc/JMP rel8|rel32 forward and backward, JMP/CALL through a register, JRCXZ, CALL/RET, PUSH/POP on an initialised stack), ending by falling off the end, a top-level RET, a jump to the end address, a jump past it, an error, or a stop hook; instruction limits {none, 0, k−n, k−1, k, k+1} around the dynamic length k; a resume point; the limit set before the run or after r steps; oracle: a checked stepping run (count +1, RIP = decoded next-ip for non-transfers, finish ⇔ code end ∨ top-level RET ∨ stop), twin runs execute() ≡ step* ≡ step^r;execute (result, full state snapshot, hook events), and 'a further step fails and changes nothing' after finish / limit; non-trivial = ≥3 dynamic instructions and not cut by the harness's hard limit; distinct by hash(case)".into()
     }
     fn required_classes(&self, _tier: Tier) -> Vec<String> {
-        ["finish:reached-code-end", "finish:top-level-ret", "finish:stop-hook", "finish:error", "limit:none", "limit:0", "limit:<k", "limit:=k", "limit:>k", "limit:set-late"].iter().map(|s| s.to_string()).collect()
+        ["finish:reached-code-end", "finish:top-level-ret", "finish:stop-hook", "finish:error", "limit:none", "limit:0", "limit:<k", "limit:=k", "limit:>k", "limit:set-late", "limit:raised-and-resumed"].iter().map(|s| s.to_string()).collect()
     }
     fn assumptions(&self) -> Vec<String> {
         vec!["every run carries a hard limit of 400 instructions so that generated loops terminate; runs cut by it are only twin-compared".into(), "whether the current instruction still executes after a before-hook stop is left open; the stepping reference observes what the code does and the twins must agree".into()]
